@@ -184,13 +184,14 @@ def explore(seed, n_layouts, ops_per_layout, stats, cases_out):
             layout = pc.gen_layout(rng)
             via_link = rng.random() < 0.25
             gi = rng.random() < 0.7
+            ctor = rng.choice(['abs_str', 'abs_str', 'abs_path', 'rel_str', 'rel_path'])
             for oi in range(ops_per_layout):
-                case = dict(layout=layout, via_link=via_link, gitignore=gi, **pc.gen_op(rng, layout))
+                case = dict(layout=layout, via_link=via_link, gitignore=gi, ctor=ctor, **pc.gen_op(rng, layout))
                 res = run_case(sbx, case, payload=b'W%d.%d' % (li, oi))
                 results.append((case, res))
             for qi in range(max(2, ops_per_layout // 5)):
                 steps = pc.gen_sequence(rng, layout)
-                seq = dict(layout=layout, via_link=via_link, gitignore=gi, steps=steps)
+                seq = dict(layout=layout, via_link=via_link, gitignore=gi, ctor=ctor, steps=steps)
                 for i, res in enumerate(run_sequence(sbx, seq, payload=b'S%d.%d' % (li, qi))):
                     last = steps[i]
                     # the case of step i = the sequence up to and including it (replayable on its own)
@@ -323,6 +324,7 @@ def run(ctx):
             dist['changed_cases'] += 1
         if case['via_link']:
             dist['via_link'] += 1
+        dist['ctor=' + case.get('ctor', 'abs_str')] = dist.get('ctor=' + case.get('ctor', 'abs_str'), 0) + 1
         links = set(res['links']) if 'links' in res else pc.layout_names(case['layout'])[2]
         if any(c in links for c in [case['key']] + case['fn'].replace(pc.SBTOKEN, '').split('/')):
             dist['with_symlink_named'] += 1
